@@ -285,6 +285,15 @@ func (this *badgerWAL) DeleteGroup() error {
 	if err := this.deleteEntriesFromIndex(batch, 0); err != nil {
 		return err
 	}
+	// Leave the store in the state NewBadgerWAL creates (dummy entry at term 0)
+	// so that the group can be loaded again through the same instance.
+	dummyData, err := (&raftpb.Entry{}).Marshal()
+	if err != nil {
+		return err
+	}
+	if err := batch.Set(this.entryKey(0), dummyData); err != nil {
+		return err
+	}
 
 	return batch.Flush()
 }
